@@ -29,17 +29,43 @@ def comparable(v):
         return False
 
 
+class PrintTimeout(BaseException):
+    """a single pformat call ran longer than PRINT_TIMEOUT seconds (a check must end on code that does not)"""
+
+
+PRINT_TIMEOUT = 20
+MAX_TIMEOUTS = 3          # after this many calls that did not return, a run stops printing further cases
+TIMEOUTS = [0]
+
+
+def _alarm(_sig, _frm):
+    raise PrintTimeout()
+
+
 def impl_pformat(v, cfg):
-    """-> (text or 'EXC <type>', [warning messages])"""
+    """-> (text or 'EXC <type>', [warning messages]); 'EXC PrintTimeout' when the call does not return"""
+    import signal
+    import threading
     from prettyprinter import pformat
+    use_alarm = threading.current_thread() is threading.main_thread()
     with warnings.catch_warnings(record=True) as ws:
         warnings.simplefilter('always')
+        if use_alarm:
+            old = signal.signal(signal.SIGALRM, _alarm)
+            signal.setitimer(signal.ITIMER_REAL, PRINT_TIMEOUT)
         try:
             out = pformat(v, **cfg)
         except RecursionError:
             out = 'EXC RecursionError'
         except Exception as e:
             out = 'EXC %s' % type(e).__name__
+        except PrintTimeout:
+            out = 'EXC PrintTimeout'
+            TIMEOUTS[0] += 1
+        finally:
+            if use_alarm:
+                signal.setitimer(signal.ITIMER_REAL, 0)
+                signal.signal(signal.SIGALRM, old)
     return out, [str(w.message) for w in ws]
 
 
@@ -54,6 +80,8 @@ def run_cases(cases):
     out = []
     built = {}
     for origin, term, cfg in cases:
+        if TIMEOUTS[0] >= MAX_TIMEOUTS:
+            break                      # the calls that hung are reported; do not sit through more of them
         key = id(term)
         if key not in built:
             built[key] = valgen.build(term)
